@@ -81,7 +81,7 @@ PROPS = {
     "C14": dict(kind="run", proj="P_ids", mon="mon_C14", property_files=("C14net", "RefinementTransfer"),
                 profiles=["uuid", "uuid_cond_loops", "uuid_loops_calls", "loops", "parloop", "parallel", "react_loops", "ids_junk"], quick=240, thorough=6000,
                 finding_profiles=["parloop_all"]),
-    "C15": dict(kind="run", proj="P_C15", mon="mon_true", property_files=("C15net",),
+    "C15": dict(kind="run", proj="P_C15", mon="mon_C15", property_files=("C15net", "C15params", "C04decide"),
                 profiles=["params", "params_indexed", "params_imm", "hostile_append", "hostile_clear", "hostile_replace"],
                 quick=240, thorough=6000, finding_profiles=["parloop_all"]),
     "C17": dict(kind="run", proj="P_C17", mon="mon_C17", property_files=("C20net", "C17obs", "RefinementTransfer"), extra_kinds=("obs",), py_monitor="petri_net_notices",
